@@ -22,7 +22,7 @@ from __future__ import annotations
 import json
 import random
 
-from . import core
+from . import core, rwtrace
 
 LEVEL = "model_checking"
 
@@ -416,9 +416,15 @@ def run_case(c):
     if before != [list(r) for r in c["ref"]]:
         return {"machinery": f"Eval of the spec disagrees with ONNX Runtime on the ORIGINAL model: spec {c['ref']} ort {before}"}
     rules = [make_rule(r) for r in c["rules"]]
+    from onnxscript._internal import _verif
+
+    del _verif.traces[:]
     try:
         im = ir.serde.deserialize_model(onnx.ModelProto.FromString(model.SerializeToString()))
         res["count"] = P.RewriteRuleSet([make_rule(r) for r in c["rules"]], commute=c["commute"]).apply_to_model(im)
+        _verif.abort_all()
+        rw = [t for t in _verif.traces if t["kind"] == "rewriter"]
+        res["rwtrace"] = rw[0] if rw else None     # the recorded trace of this apply_to_model (validated against RewriteApply.tla)
         try:
             res["real_after_apply"] = abs_model(ir.serde.serialize_model(im))
         except Exception as e:  # noqa: BLE001 - judged on the result of rewrite() below
@@ -426,6 +432,10 @@ def run_case(c):
     except Exception as e:  # noqa: BLE001
         res["prop"].append(f"apply_to_model raised {type(e).__name__}: {str(e)[:200]}")
         res["raised"] = True
+        _verif.abort_all()
+        rw = [t for t in _verif.traces if t["kind"] == "rewriter"]
+        res["rwtrace"] = rw[0] if rw else None
+    del _verif.traces[:]
     try:
         after = rewrite(onnx.ModelProto.FromString(model.SerializeToString()), P.RewriteRuleSet(rules, commute=c["commute"]))
     except Exception as e:  # noqa: BLE001
@@ -615,6 +625,21 @@ def run(ctx: core.Ctx):
             rs = [x[0] if isinstance(x, list) else x for x in rs]
         for c, r in zip(ch, rs):
             flat.append((c, r))
+    # direction B: the traces the hooks in _rewrite_rule.py recorded for these cases (and for the repository's own
+    # rewriter / optimizer tests) are executed by TLC on RewriteApply.tla; every snapshot must equal the computed state
+    case_traces = []
+    for k, (c, r) in enumerate(flat):
+        if isinstance(r, dict) and r.get("rwtrace"):
+            t = r.pop("rwtrace")
+            t["id"] = f"case/{k}"
+            t["meta"]["describe"] = describe(c)
+            case_traces.append(t)
+    rwtrace.stage(ctx, case_traces, "C07", known_clause_findings={
+        "apply_overwritten_initializer_unused": "init_clash_overwrite",
+        "end_every_graph_topologically_ordered": "multi_output_insertion_point",
+        "apply_replacement_reads_visible_values": "multi_output_insertion_point",
+        "apply_removed_values_unused": "var_binds_removed_intermediate",
+    })
     import onnx
 
     # spec/Graph.tla is evaluated on every result in quick, on a seeded sample of GC_CAP results in thorough
